@@ -55,6 +55,8 @@ type callM struct {
 	start    time.Duration
 	rr       bool
 	rrIndex  int
+	rrEpoch  int
+	rrN      int
 	returned bool
 	placed   bool
 	ex       *expect
@@ -102,6 +104,7 @@ type Model struct {
 	op        *coreOp
 	rrSeq     []rrObs
 	rrEpochN  int
+	epoch     int
 	rrInvoked int
 	maxPool   int
 
@@ -336,6 +339,11 @@ func (m *Model) opStart(ev Event) {
 	case strings.HasPrefix(o.kind, "resolver"):
 		o.first = !m.resolverSeen
 		o.poolEmpty = m.poolSize() == 0
+		if o.addrs != "[]" {
+			m.lastAddrs = o.addrs
+		} else {
+			m.lastAddrs = ""
+		}
 		if strings.Contains(o.kind, "cfg2") && m.resolverSeen {
 			m.cfgFaulted = true
 		}
@@ -375,7 +383,7 @@ func (m *Model) opStart(ev Event) {
 		ch.state = o.state
 		if o.state == connectivity.Shutdown {
 			ch.gone = true
-			m.rrEpochN = -1
+			m.epoch++
 			m.probe("pool_conn_shutdown")
 		}
 		if wasReady != (o.state == connectivity.Ready) {
@@ -421,7 +429,7 @@ func (m *Model) newSC(ev Event) {
 		ch.lastResp[0], ch.lastResp[1] = ev.At, ev.At
 		m.chans = append(m.chans, ch)
 		m.conns[ev.Conn] = &connM{id: ev.Conn, ch: ch.idx, role: rolePool}
-		m.rrEpochN = -1
+		m.epoch++
 		if m.op != nil && ev.Phase == PhCore {
 			m.op.newSC = append(m.op.newSC, ev.Conn)
 		}
@@ -625,6 +633,7 @@ func (m *Model) pickInvoke(ev Event) {
 	if isMapped && mm.cmd == cmdBind && m.cfg.rr && p.state != connectivity.TransientFailure && len(p.ready) > 0 {
 		cm.rr = true
 		cm.rrIndex = m.rrInvoked
+		cm.rrEpoch, cm.rrN = m.epoch, m.poolSize()
 		m.rrInvoked++
 	}
 	// The expectation is computed against the state the pick finds, before its
@@ -809,7 +818,7 @@ func (m *Model) pickReturn(ev Event) {
 		m.v(prop, rule, facts, msg, ev.Op)
 		if extraMethod {
 			m.v("C17", "method-mapping", facts, "extra method "+c.MethodName+": "+msg, ev.Op)
-		} else if m.cfgFaulted && prop != "C04" {
+		} else if m.cfgFaulted && prop != "C04" && m.s.plan.Profile == "config" {
 			m.v("C17", "config-not-fixed", facts, "after config mutation / second config: "+msg, ev.Op)
 		} else if (prop == "C03" || prop == "C02") && (m.cfg.defaulted["wm"] || m.cfg.defaulted["max"]) && m.s.plan.Profile == "config" {
 			m.v("C17", "defaults", facts, "defaulted wm/max: "+msg, ev.Op)
@@ -892,35 +901,39 @@ func (m *Model) rrReturn(c *Call, cm *callM, placedCh int, ev Event) {
 	if ctxEnded && ch.state != connectivity.Ready {
 		m.probe("rr_returned_on_ctx_end")
 	}
-	n := m.poolSize()
-	if m.rrEpochN != n {
-		m.rrEpochN = n
-		m.rrSeq = nil
-	}
+	n := cm.rrN
 	for _, o := range m.rrSeq {
+		if o.epoch != cm.rrEpoch || n == 0 {
+			continue
+		}
 		d := cm.rrIndex - o.index
 		want := ((o.ch+d)%n + n) % n
 		if want != placedCh {
-			m.v("C09", "rr-not-cyclic", "", fmt.Sprintf("round-robin BIND #%d got channel %d, BIND #%d got channel %d; with %d channels the cycle requires %d", cm.rrIndex, placedCh, o.index, o.ch, n, want), ev.Op)
+			m.v("C09", "rr-not-cyclic", "", fmt.Sprintf("round-robin BIND #%d got channel %d, BIND #%d got channel %d; both started while the pool had the same %d channels, the cycle requires %d", cm.rrIndex, placedCh, o.index, o.ch, n, want), ev.Op)
 			break
 		}
 	}
-	m.rrSeq = append(m.rrSeq, rrObs{index: cm.rrIndex, ch: placedCh})
-	if len(m.rrSeq) > 8 {
-		m.rrSeq = m.rrSeq[len(m.rrSeq)-8:]
+	m.rrSeq = append(m.rrSeq, rrObs{index: cm.rrIndex, ch: placedCh, epoch: cm.rrEpoch})
+	if len(m.rrSeq) > 12 {
+		m.rrSeq = m.rrSeq[len(m.rrSeq)-12:]
 	}
 }
 
 // PredictRR returns the channel a pending round-robin pick is heading for, if
 // earlier observations determine it.
 func (m *Model) PredictRR(cm *callM) (int, bool) {
-	n := m.poolSize()
-	if n == 0 || m.rrEpochN != n || len(m.rrSeq) == 0 {
+	n := cm.rrN
+	if n == 0 {
 		return 0, false
 	}
-	o := m.rrSeq[len(m.rrSeq)-1]
-	d := cm.rrIndex - o.index
-	return ((o.ch+d)%n + n) % n, true
+	for i := len(m.rrSeq) - 1; i >= 0; i-- {
+		o := m.rrSeq[i]
+		if o.epoch == cm.rrEpoch {
+			d := cm.rrIndex - o.index
+			return ((o.ch+d)%n + n) % n, true
+		}
+	}
+	return 0, false
 }
 
 // ---------------------------------------------------------------- completions
